@@ -5,6 +5,7 @@ import Pyunicorn.Lemmas.RelabelCross
 import Pyunicorn.Lemmas.RelabelCircuit
 import Pyunicorn.Lemmas.RelabelGeoRec
 import Pyunicorn.Lemmas.RelabelR4
+import Pyunicorn.Lemmas.RelabelRec4
 import Mathlib.Algebra.BigOperators.Group.List.Basic
 import Mathlib.Data.List.Nodup
 /-!
@@ -669,6 +670,62 @@ theorem rec_fixedThreshold_relabel (h : IsPerm n idx) (m : Metric) (emb : List (
   ⟨distRP_relabel h m emb hn a b ha hb, fixedThreshold_relabel h m emb hn eps mv a b ha hb,
    recurrenceAdjacency_relabel h m emb hn eps mv a b ha hb⟩
 
+/-- **fixed recurrence rate** (`set_fixed_recurrence_rate`, C07's `fixedRate`: the threshold is the
+`k`-th order statistic of the sorted flattened distance matrix, `none` = IndexError): the
+threshold does not depend on the order of the state vectors and the recurrence matrix of the
+reordered trajectory is the renumbered one (round 4) -/
+theorem rec_fixedRate_relabel (h : IsPerm n idx) (m : Metric) (emb : List (List V))
+    (hn : emb.length = n) (k : Nat) (a b : Nat) (ha : a < n) (hb : b < n) :
+    quantileAt (distRP m (rows n idx emb)).flatten k = quantileAt (distRP m emb).flatten k ∧
+    (fixedRate (distRP m (rows n idx emb)) k).map (fun R => entry R a b)
+      = (fixedRate (distRP m emb) k).map (fun R => entry R (idx a) (idx b)) :=
+  ⟨quantile_distRP_relabel h m emb hn k, fixedRate_relabel h m emb hn k a b ha hb⟩
+
+/-- **fixed local recurrence rate** (`set_fixed_local_recurrence_rate`, C07's `fixedLocalRate`: one
+order statistic per row; the network is directed): both constructions succeed or raise together,
+and the recurrence matrix of the reordered trajectory is the renumbered one (round 4) -/
+theorem rec_localRate_relabel (h : IsPerm n idx) (m : Metric) (emb : List (List V))
+    (hn : emb.length = n) (k : Nat) :
+    ((fixedLocalRate (distRP m (rows n idx emb)) k).isSome
+      = (fixedLocalRate (distRP m emb) k).isSome) ∧
+    ∀ R R', fixedLocalRate (distRP m emb) k = some R →
+      fixedLocalRate (distRP m (rows n idx emb)) k = some R' →
+      ∀ a b, a < n → b < n → entry R' a b = entry R (idx a) (idx b) :=
+  fixedLocalRate_relabel h m emb hn k
+
+/-- **joint recurrence matrix at lag 0** (`JointRecurrencePlot`: `R = Rx * Ry`, C07's `hadamard`)
+of two trajectories reordered by the same permutation (round 4).  The slicing for non-zero lags
+depends on the time order and is exempt. -/
+theorem rec_joint_relabel (h : IsPerm n idx) (mx my : Metric) (ex ey : List (List V))
+    (hnx : ex.length = n) (hny : ey.length = n) (epsx epsy : Rat) (mv : Bool) (a b : Nat)
+    (ha : a < n) (hb : b < n) :
+    (hadamard (fixedThreshold mx (rows n idx ex) epsx mv)
+        (fixedThreshold my (rows n idx ey) epsy mv)).bind (fun R => entry R a b)
+      = (hadamard (fixedThreshold mx ex epsx mv) (fixedThreshold my ey epsy mv)).bind
+          (fun R => entry R (idx a) (idx b)) :=
+  hadamard_relabel _ _ _ _ (fixedThreshold_square mx ex hnx epsx mv)
+    (fixedThreshold_square mx _ (rows_length ex) epsx mv) (fixedThreshold_square my ey hny epsy mv)
+    (fixedThreshold_square my _ (rows_length ey) epsy mv) a b
+    (fixedThreshold_relabel h mx ex hnx epsx mv a b ha hb)
+    (fixedThreshold_relabel h my ey hny epsy mv a b ha hb)
+
+/-- **inter-system recurrence matrix** (C07's `isrm`: blocks `Rx`, `CR`, `CRᵀ`, `Ry`) of two
+systems reordered *separately* by `idx` and `idy`: `joinPerm` is a permutation of the `Nx + Ny`
+nodes and the assembled matrix is the original one renumbered by it (round 4) -/
+theorem rec_intersystem_relabel {Nx Ny : Nat} {idy : Nat → Nat} (hx : IsPerm Nx idx)
+    (hy : IsPerm Ny idy) (m : Metric) (ex ey : List (List V)) (hnx : ex.length = Nx)
+    (hny : ey.length = Ny) (epsx epsy : Rat) (t : V) (mv : Bool) (M M' : List (List Bool))
+    (hM : isrm Nx Ny (fixedThreshold m ex epsx mv) (fixedThreshold m ey epsy mv)
+      (threshold (distCRP m ex ey) t) = some M)
+    (hM' : isrm Nx Ny (fixedThreshold m (rows Nx idx ex) epsx mv)
+      (fixedThreshold m (rows Ny idy ey) epsy mv)
+      (threshold (distCRP m (rows Nx idx ex) (rows Ny idy ey)) t) = some M') :
+    IsPerm (Nx + Ny) (joinPerm Nx idx idy) ∧
+    ∀ a b, a < Nx + Ny → b < Nx + Ny →
+      entry M' a b = entry M (joinPerm Nx idx idy a) (joinPerm Nx idx idy b) :=
+  ⟨joinPerm_isPerm hx hy, fun a b ha hb =>
+    intersystem_relabel hx hy m ex ey hnx hny epsx epsy t mv M M' hM hM' a b ha hb⟩
+
 /-! ### non-vacuity -/
 
 def exPerm : Nat → Nat := fun a => [2, 0, 3, 1].getD a a
@@ -699,6 +756,13 @@ example : (Repr.setLinkAttr exNetA fun i j => (i + j : Nat)).eattr = some [1, 3]
     (Repr.setLinkAttr exNetB fun i j => (i + j : Nat)).eattr = some [3, 1] := by decide +kernel
 example : Cross.clcSparse false (mat exAdj exPerm) (nodes 4 exPerm [1]) (nodes 4 exPerm [0, 2])
     = Cross.clcSparse false exAdj [1] [0, 2] := by decide +kernel
+example : joinPerm 2 exPerm (fun a => [1, 0].getD a a) 3 = 2 ∧ joinPerm 2 exPerm id 0 = 2 := by
+  decide +kernel
+example : IsPerm 3 (fun a => [2, 0, 1].getD a a) ∧
+    ([[some 0], [some 1], [some 3]] : List (List V)).length = 3 ∧
+    rows 3 (fun a => [2, 0, 1].getD a a) ([[some 0], [some 1], [some 3]] : List (List V))
+      = [[some 3], [some 0], [some 1]] := by
+  refine ⟨by unfold IsPerm; decide, rfl, by decide⟩
 example : IsNetwork 3 (fun i j => i != j) (fun _ _ => 1) :=
   ⟨fun i j _ _ => by simp [bne_comm], fun _ _ _ _ => rfl, fun _ _ _ _ _ => by norm_num⟩
 
